@@ -379,6 +379,20 @@ func parseRule(node *yaml.Node, offsetLine, offsetColumn int, contentLines []str
 		}
 	}
 
+	// A null spelled with text (~, null) is not a string: Prometheus decodes it as an unset field.
+	for _, entry := range []struct {
+		part *yaml.Node
+		key  string
+	}{
+		{key: recordKey, part: recordNode},
+		{key: alertKey, part: alertNode},
+		{key: exprKey, part: exprNode},
+	} {
+		if entry.part != nil && entry.part.ShortTag() == nullTag && entry.part.Value != "" {
+			return invalidValueError(lines, entry.part.Line+offsetLine, entry.key, describeTag(strTag), describeTag(nullTag))
+		}
+	}
+
 	for _, entry := range []struct {
 		part *yaml.Node
 		key  string
